@@ -148,6 +148,43 @@ def rule_ready_set_semantics(ctx):
                site=m.loc(), trivial=True)
 
 
+def rule_requeue(ctx):
+    """a duplicate of an item that is still waiting in the ready queue must not move it to the back:
+    the re-queue UPDATE of mark_ready runs only behind the `still in queue == false` edge"""
+    from mir import deep_calls, edge_dominates
+    from facts import op_const, op_place
+    prog = ctx.prog
+    impls = [lz.get() for lz in prog.lazy if lz.path == lz.root and lz.path.endswith("::mark_ready")
+             and "impl p2panda_store::orderer::traits::OrdererStore for" in lz.path]
+    ctx.floor("C11.4", "OrdererStore::mark_ready implementations", len(impls), 1)
+    for m in impls:
+        found = 0
+        for b in [m] + prog.children(m):
+            for bb, k, pl, rv, st in b.assigns():
+                c = op_const(rv.get("op")) if rv["k"] == "use" else None
+                if c is None or "UPDATE" not in c.get("c", "") or "queue_index" not in c.get("c", ""):
+                    continue
+                found += 1
+                guarded = False
+                for sb, t in b.terms("switch"):
+                    dp = op_place(t["discr"])
+                    if dp is None:
+                        continue
+                    names = deep_calls(b, t["discr"])
+                    if not any("fetch_one" in n or "fetch_optional" in n for n in names):
+                        continue
+                    for v, tg in t["targets"]:
+                        if v == 0 and edge_dominates(b, (sb, tg), bb) and \
+                                strip_generics(b.locals[dp.local]["ty"]) == "bool":
+                            guarded = True
+                ctx.ob("C11.4", "re-queue only when the item is not waiting in the queue", guarded,
+                       "`%s` re-queues an already ready item (UPDATE .. queue_index) without being guarded by the "
+                       "`in_queue == false` edge: a duplicate of a queued item moves it behind its dependents, which "
+                       "are then released first" % m.root, site=b.loc(bb, k), key="C11.4:requeue-guard")
+        ctx.ob("C11.4", "re-queue statement located", found >= 1,
+               "unrecognised-shape: no `UPDATE .. queue_index` statement in `%s`" % m.root, site=m.loc(), trivial=True)
+
+
 def rule_who(ctx):
     sites = callers_of(ctx.prog, ST + "mark_ready")
     roots = sorted({b.root for b, _, _ in sites})
@@ -167,7 +204,7 @@ def run(ctx):
         "semantics: in every OrdererStore::ready impl the value compared with the SQL COUNT derives from a "
         "de-duplicated collection; (3) who-may-call mark_ready. NOT decided: SQL of the pending tables, "
         "eventual release over all DAGs and delivery orders.")
-    for r in (rule_process, rule_process_pending, rule_ready_set_semantics, rule_who):
+    for r in (rule_process, rule_process_pending, rule_ready_set_semantics, rule_requeue, rule_who):
         ctx.guarded(lambda r=r: r(ctx), "C11")
 
 
